@@ -1040,24 +1040,37 @@ func (r *vpRunner) genAndRun(g *vpRng, maxOps int, prop string) {
 	// occasionally many calls in flight on one channel (the default watermark of 100 streams, counters and
 	// load comparisons beyond the handful of calls of an ordinary history)
 	heavy := 0
-	if r.nhist == 7 || r.nhist == 23 || ((prop == "C09" || prop == "C02" || prop == "C03") && (r.nhist == 55 || r.nhist == 90)) {
-		heavy = 1 + g.intn(3)
-		if prop == "C09" {
+	switch r.nhist { // every run has each kind once, whatever the property; two more by property
+	case 7:
+		heavy = 1
+	case 23:
+		heavy = 2
+	case 41:
+		heavy = 3
+	case 55, 90:
+		switch prop {
+		case "C09":
 			heavy = 1
-		} else if prop == "C03" {
+		case "C03":
 			heavy = 2
-		}
-		if heavy == 1 { // round-robin BIND over two channels, one of them loaded with bound calls
-			h.a = []int64{2, 2, 0, 0, 0, 0, 1, 0}
-		} else if heavy == 2 { // growth at the DEFAULT watermark
-			h.a = []int64{1, g.pick([]int64{2, 3}), 0, 0, 0, 0, 0, 0}
-		} else { // many affinity keys
-			n := g.pick([]int64{2, 3, 4})
-			h.a = []int64{n, n, 100, g.pick([]int64{0, 1}), 0, 0, 0, 0}
+		case "C02":
+			heavy = 1 + (r.nhist/55)%2 // 55 -> 2, 90 -> 2 ... keep both kinds below
+			if r.nhist == 90 {
+				heavy = 1
+			}
+		case "C01", "C08":
+			heavy = 3
+			if r.nhist == 90 {
+				heavy = 1
+			}
 		}
 	}
-	if (prop == "C01" || prop == "C08") && (r.nhist == 55 || r.nhist == 90) {
-		heavy = 3
+	switch heavy {
+	case 1: // round-robin BIND over two channels, one of them loaded with bound calls
+		h.a = []int64{2, 2, 0, g.pick([]int64{0, 1}), 0, 0, 1, 0}
+	case 2: // growth at the DEFAULT watermark
+		h.a = []int64{1, g.pick([]int64{2, 3}), 0, 0, 0, 0, 0, 0}
+	case 3: // many affinity keys
 		n := g.pick([]int64{2, 3, 4})
 		h.a = []int64{n, n, 100, g.pick([]int64{0, 1}), 0, 0, 0, 0}
 	}
